@@ -40,6 +40,33 @@ fn main() {
             let code = if detail { encverif::checks::c17::digest_main(&ctx, &args[5], Some((args[3].clone(), args[4].clone()))) } else { encverif::checks::c17::digest_main(&ctx, &args[3], None) };
             std::process::exit(code);
         }
+        "emit-corpus" => {
+            if args.len() < 3 {
+                usage();
+            }
+            encverif::fuzzing::emit_corpus(&args[2], seed);
+            std::process::exit(0);
+        }
+        "replay-artifact" => {
+            // replay-artifact <target> <path>
+            if args.len() < 4 {
+                usage();
+            }
+            fw::init_known("");
+            let data = std::fs::read(&args[3]).unwrap_or_default();
+            match encverif::fuzzing::replay_artifact(&args[2], &data) {
+                None => {
+                    println!("replay: artifact {} passes outside the sanitizer build", args[3]);
+                    std::process::exit(0);
+                }
+                Some(msg) => {
+                    let prop = msg.strip_prefix("PROP=").and_then(|m| m.split(' ').next()).unwrap_or("C06").to_string();
+                    println!("VIOLATION property={} replay={}", prop, args[3]);
+                    println!("  what: {}", msg.chars().take(1500).collect::<String>());
+                    std::process::exit(1);
+                }
+            }
+        }
         "replay" => {
             if args.len() < 3 {
                 usage();
